@@ -303,9 +303,14 @@ func c16Menu(in c16Init, full bool) []string {
 	add("inject")
 	add("inject 1 a")
 	for _, t := range tids {
-		for _, n1 := range []string{"a", "1a"} {
+		// targets: a variable, a malformed name, and paths the scope cannot write
+		// (through a non-container, into an unknown container, index out of range)
+		for _, n1 := range []string{"a", "1a", "a.b", "nosuch.f", "a.7"} {
 			for _, e := range exprs {
 				if !full && t != "1" && e != "1" {
+					continue
+				}
+				if !full && strings.Contains(n1, ".") && e != "1" && e != "len(a)" {
 					continue
 				}
 				add("inject " + t + " " + n1 + " " + e)
